@@ -27,6 +27,12 @@ func kaRun(t *testing.T, cs kaCase, tag string) (rule, what string, trace []stri
 			dir = scratch
 		}
 	}
+	defer func() {
+		if r := recover(); r != nil {
+			atomic.StoreInt32(&e2eHung, 1)
+			rule, what = "C20/E-engine-goroutine-blocked-for-ever", fmt.Sprint(r)
+		}
+	}()
 	synctest.Test(t, func(t *testing.T) {
 		s, e := e2e.NewHB(e2e.Ctl{Barrier: synctest.Wait, Sleep: time.Sleep}, "FIX.4.2", dir, tag, cs.Cfg.HB, cs.Cfg.AccHB)
 		if e != nil {
@@ -149,7 +155,7 @@ func TestE2EKeepAlive(t *testing.T) {
 					return
 				}
 				mu.Lock()
-				stop := len(res.Violations) >= 25 || (!deadline.IsZero() && time.Now().After(deadline))
+				stop := len(res.Violations) >= 25 || (!deadline.IsZero() && time.Now().After(deadline)) || atomic.LoadInt32(&e2eHung) != 0
 				if stop {
 					res.NotRun++
 				}
